@@ -29,7 +29,12 @@ THEOREMS = [
         "fpval_all_paired", "fpval_drops_unpaired", "fpval_empty_gt", "empty_gt_all_unpaired", "empty_est",
         "results_length",
     ]
-]
+] + (
+    # decision tables of the kernels C01 rests on, regenerated from the source on every run (harness/dt_match.py)
+    ["PEval.KernelCell.cell_table_check", "PEval.KernelCell.cell_code_table_eq_model", "PEval.KernelCell.cell_eq_skeleton", "PEval.KernelCell.cell_code_table_eq_cell", "PEval.KernelCell.table_cell_nan_on_radius", "PEval.KernelCell.table_cell_other_frame"]
+    + ["PEval.KernelBetter.better_table_check", "PEval.KernelBetter.better_code_table_eq_model", "PEval.KernelBetter.better_eq_skeleton", "PEval.KernelBetter.better_code_table_eq_isBetterThan", "PEval.KernelBetter.better_code_table_eq_isBetterThan_matcher", "PEval.KernelBetter.table_distance_direction", "PEval.KernelBetter.table_iou_direction", "PEval.KernelBetter.table_equal_not_better", "PEval.KernelBetter.table_none_not_better", "PEval.KernelBetter.table_better_mono"]
+    + ["PEval.KernelMatchable.matchable_table_check", "PEval.KernelMatchable.matchable_code_table_eq_model", "PEval.KernelMatchable.matchable_eq_skeleton", "PEval.KernelMatchable.matchable_valuation_consistent", "PEval.KernelMatchable.matchable_code_table_eq_isMatchable", "PEval.KernelMatchable.matchable_code_table_eq_isMatchable_AP", "PEval.KernelMatchable.table_fp_gt_compatible", "PEval.KernelMatchable.table_allow_any", "PEval.KernelMatchable.table_strict_iff"]
+)
 RULE = (
     "seeded scenes of 0..8 (thorough: up to 30) estimates x ground truths, 3-D boxes (base_link/map) and 2-D ROIs "
     "(two cameras), labels car/bicycle/pedestrian/motorbike/truck/bus/unknown + FP-labelled ground truth, clusters of "
@@ -43,6 +48,10 @@ RULE = (
     "non-trivial when both lists are non-empty (the two early returns are counted separately); distinct = distinct case JSON"
 )
 TRUSTED = [
+    "decision-table translator (harness/dtable.py, harness/dt_match.py): the symbolic stubs stand for the objects, labels, "
+    "matching methods and thresholds of the tabulated kernels and answer every query of the REAL function from the recorded "
+    "valuation only; anything else the code touches is a leak (table marked untranslatable, no alarm); `a is b` of the "
+    "modules under test is routed through __dt_is__ (recompiled from the current source)",
     "matching scores are taken from the real MatchingMethod classes (shapely/numpy inside) and handed to the model exactly; "
     "their geometric meaning is C06's subject, here only the radius gate is recomputed independently",
     "manager slice: the lists handed to the matcher are obtained by calling the real filter_objects with the manager's "
@@ -50,6 +59,9 @@ TRUSTED = [
     "Python object identity is mapped to list positions by the harness (id())",
 ]
 ASSUMPTIONS = [
+    "decision tables: Boolean and order atoms are treated as independent (over-approximation of the input space, sound for "
+    "'table = model'); enum arguments (policy, matching mode) are enumerated over the members of the current source; "
+    "an untranslatable source (histogram key table:untranslatable) leaves the correspondence as the only tie",
     "objects carry geometry (3-D box or 2-D ROI); the ROI-less branches (_get_object_results_with_id/_for_tlr) belong to C11",
     "estimates and ground truths are of the same Python type (the isinstance assertion is not exercised)",
     "labels are AutowareLabel members; 3-D frames are base_link/map with a base_link->map transform supplied",
@@ -80,8 +92,34 @@ _MOD: Dict[str, Any] = {}
 STATS: Dict[str, int] = __import__("collections").Counter()
 
 
+TABLE_KEYS = ["cell", "better", "matchable"]
+
+
+def _table_note():
+    """(histogram key, info) about the decision tables of this run (harness/dt_match.py)"""
+    try:
+        from .. import dt_match
+
+        return dt_match.table_note(TABLE_KEYS)
+    except Exception as e:  # noqa: BLE001 - the table machinery must never fail a check
+        return "table:untranslatable", {"error": f"{type(e).__name__}: {e}"}
+
+
+def table_witnesses() -> list:
+    """cases realising the valuations on which a regenerated decision table and its model skeleton differ (empty on an
+    unchanged tree): they go FIRST, so a broken table theorem leads straight to its input"""
+    try:
+        from .. import dt_match
+
+        return (dt_match.witness_cases(["cell", "better"], dt_match.realise_c01)
+                + dt_match.witness_cases(["matchable"], dt_match.realise_c02))
+    except Exception:  # noqa: BLE001
+        return []
+
+
 def extra_evidence() -> dict:
-    return {"oracle_counters": dict(STATS)}
+    key, info = _table_note()
+    return {"oracle_counters": dict(STATS), "decision_tables": info, "decision_tables_status": key}
 
 
 def _m():
@@ -818,6 +856,11 @@ def branches(case: dict, out: dict) -> List[str]:
          "thresholds:" + ("none" if case["radii"] is None else "per-label"),
          "targets:" + ("none" if case["targets"] is None else "list")]
     b += num_branches(case)
+    if case.get("table_witness"):
+        b.append("table:witness-case")
+    if not STATS.get("_table_noted"):
+        STATS["_table_noted"] = 1
+        b.append(_table_note()[0])
     nE, nG = len(out.get("in_e", [])), len(out.get("in_g", []))
     if "err" in out:
         b.append("err:" + out["err"])
@@ -994,7 +1037,7 @@ def gen_case(rng, size_max: int, contested: float = 0.5, manager: float = 0.1, n
     return case
 
 
-def corpus() -> list:
+def _corpus() -> list:
     car = {"label": "car", "frame": "base_link", "pos": [4.0, 0.0, 0.0], "yaw": 0.0, "size": [2.0, 4.0, 1.5]}
 
     def mk(**kw):
@@ -1078,7 +1121,7 @@ N_THOROUGH = 20000
 
 
 def generate(rng, tier: str, contested: float = 0.45, manager: float = 0.1) -> list:
-    cases = []
+    cases = table_witnesses()
     if tier == "quick":
         for _ in range(N_QUICK):
             cases.append(gen_case(rng, 8, contested, manager))
@@ -1121,7 +1164,7 @@ def shrink(case: dict):
 
 def search(rng, st, disagreements) -> list:
     """targeted extra cases: contested scenes around the configuration of the first diverging cases"""
-    extra = []
+    extra = table_witnesses()
     for d in disagreements[:3]:
         c = d["case"]
         for _ in range(150):
@@ -1139,3 +1182,8 @@ def search(rng, st, disagreements) -> list:
     for _ in range(600):
         extra.append(gen_case(rng, 5, 0.8, manager=0.05, numeric=0.5))
     return extra
+
+
+def corpus():
+    """table witnesses (empty on an unchanged tree) first, then the stored corner cases"""
+    return table_witnesses() + list(_corpus())
